@@ -389,9 +389,11 @@ ${loop.index}${n.d(who + str(i))}<%self:wrap x="${who}">${i}${who}</%self:wrap>
     for j in range(6):
         sources["/i%d.html" % j] = "<%%include file='/leaf.html'/>i%d" % j
     sources["/leaf.html"] = "L"
+    # the same include several times in a row: the later ones find their URI-cache entry -- unless another render evicts it in between
+    sources["/twice.html"] = "<%include file='/leaf.html'/><%include file='/leaf.html'/><%include file='/leaf.html'/>${who}"
 
     needed = {"plain": ["/base.html", "/ns.html", "/page.html", "/inc.html"], "cache": ["/cached.html"],
-              "lru": ["/many.html", "/leaf.html"] + ["/i%d.html" % j for j in range(6)]}
+              "lru": ["/many.html", "/leaf.html", "/twice.html"] + ["/i%d.html" % j for j in range(6)]}
 
     def mk(kind):
         def factory():
@@ -415,6 +417,7 @@ ${loop.index}${n.d(who + str(i))}<%self:wrap x="${who}">${i}${who}</%self:wrap>
         ("inherit-namespace-include", mk("plain"), [("/page.html", dict(who="t0", k=3)), ("/page.html", dict(who="t1", k=4))]),
         ("cached-def-context-backend", mk("cache"), [("/cached.html", dict(who="a", lang="en", hello=hello)), ("/cached.html", dict(who="b", lang="fr", hello=hello))]),
         ("lru-lookup-includes", mk("lru"), [("/many.html", dict(who="x")), ("/many.html", dict(who="y"))]),
+        ("lru-repeated-include-vs-many", mk("lru"), [("/twice.html", dict(who="x")), ("/many.html", dict(who="y"))]),
     ]
 
 
